@@ -67,6 +67,9 @@ def gen_domain(r, rng, want_boundary=None, allow_tf=True, allow_prod=True, p_par
     if pvar and c < 0.25:
         dom = {"k": "prod", "a": dom, "b": {"k": "iv", "var": "t", "a": 0.0, "b": 1.0}}
         pvar = None
+    elif pvar and c < 0.32 and not G.is_boundary(dom):
+        # the SECOND factor depends on the external parameter as well (its bounds move with t)
+        dom = {"k": "prod", "a": dom, "b": GG.gen_iv(rnd(r.random(), "dep-second-factor"), "s", "t", 1.0)}
     elif c < 0.08 and not G.is_boundary(dom):
         dom = {"k": "prod", "a": dom, "b": GG.gen_iv(r, "s")}
     pspace = [["t", 1]] if pvar else []
